@@ -29,12 +29,19 @@ def run(tier):
     bal_tuned.update_parameters({"saturation_breaking_directional_control": 0.3, "viscous_stress_parameter": 0.11})
     settings = [("default", bal_default, False, [(16, 4), (24, 8), (36, 4)] if quick else [(16, 32), (24, 48), (36, 72)]),
                 ("tuned parameters", bal_tuned, False, [(24, 4)] if quick else [(16, 32), (24, 48), (36, 72)]),
-                ("direction iteration, crossing sea", bal_default, True, [(24, 5)] if quick else [(16, 32), (24, 48), (36, 72)])]
+                ("direction iteration, crossing sea", bal_default, True, [(24, 5)] if quick else [(16, 32), (24, 48), (36, 72)]),
+                # an axis that does not start at 0 (bin centres at half steps) and a non-uniform frequency axis with at least as many
+                # frequencies as directions
+                ("bin-centred directions, logarithmic frequencies", bal_default, False, [(16, 5), (36, 5)] if quick else [(16, 32), (24, 48), (36, 72)])]
+    f_uniform = f
+    f_log = 0.04 * (1.0 / 0.04) ** (np.arange(len(f)) / (len(f) - 1.0))
     for label, bal, diriter, plan in settings:
+      centred = label.startswith("bin-centred")
+      f = f_log if centred else f_uniform
       for N, nsel in plan:
-          els = common.symmetry_elements(chk, N, 0)
+          els = common.symmetry_elements(chk, N, 1 if centred else 0)
           delta = 360.0 / N
-          dirs = np.arange(N) * delta
+          dirs = (np.arange(N) + (0.5 if centred else 0.0)) * delta
           B = 2
           vds, winds, wdirs, depths = [], [], [], []
           for b in range(B):
